@@ -11,8 +11,12 @@ fn tracked_per<K: Elem, V: Elem>() -> u64 {
 }
 
 fn map_pair<K: Elem, V: Elem>(c: &mut Ctx, tspec: &Spec, sspec: &Spec, rng: &mut Rng) {
+    // source and target live on different allocator instances: every block must go back to the instance it came from
+    crate::ckalloc::set_current_id(1);
     let s: MapC<K, V> = build(sspec);
+    crate::ckalloc::set_current_id(2);
     let mut t: MapC<K, V> = build(tspec);
+    crate::ckalloc::set_current_id(0);
     let sf = s.validate("C11 source");
     let tf = t.validate("C11 target");
     let what = format!("HashMap<{},{}> target [{}] <- source [{}]", K::NAME, V::NAME, tspec.describe(), sspec.describe());
@@ -77,8 +81,11 @@ fn map_pair<K: Elem, V: Elem>(c: &mut Ctx, tspec: &Spec, sspec: &Spec, rng: &mut
 }
 
 fn set_pair<T: Elem>(c: &mut Ctx, tspec: &Spec, sspec: &Spec, _rng: &mut Rng) {
+    crate::ckalloc::set_current_id(3);
     let s: SetC<T> = build(sspec);
+    crate::ckalloc::set_current_id(4);
     let mut t: SetC<T> = build(tspec);
+    crate::ckalloc::set_current_id(0);
     let what = format!("HashSet<{}> target [{}] <- source [{}]", T::NAME, tspec.describe(), sspec.describe());
     let before = s.contents();
     c.evaluations += 1;
